@@ -2,13 +2,23 @@
 // std::io::{Read, Write, Seek} on a Cursor<Vec<u8>> / regular file, plus fault injection: every
 // operation may fail (and then sets the ghost flag `failed`), `read` may be short in any way.
 pub enum SeekFrom { Start(u64), End(i64), Current(i64) }
-pub struct Dev { pub data: Vec<u8>, pub pos: u64, pub failed: Ghost<bool> }
+pub struct Dev { pub data: Vec<u8>, pub pos: u64, pub failed: Ghost<bool>,
+    /// C15 history variables: `dirty` = number of device writes so far that carried a non-zero byte for device bytes 32..40
+    /// (the XML-length field of the file header); `snap` = the device image just before the first such write
+    pub dirty: Ghost<nat>, pub snap: Ghost<Seq<u8>> }
+/// byte that a write of `buf` at `pos` puts at device offset i (0 if the write does not cover it)
+pub open spec fn wr_byte(pos: int, buf: Seq<u8>, i: int) -> u8 { if pos <= i < pos + buf.len() { buf[i - pos] } else { 0u8 } }
+/// the write carries a non-zero byte for the XML-length field (device bytes 32..40)
+pub open spec fn hdr_touch(pos: int, buf: Seq<u8>) -> bool {
+    wr_byte(pos, buf, 32) != 0 || wr_byte(pos, buf, 33) != 0 || wr_byte(pos, buf, 34) != 0 || wr_byte(pos, buf, 35) != 0
+    || wr_byte(pos, buf, 36) != 0 || wr_byte(pos, buf, 37) != 0 || wr_byte(pos, buf, 38) != 0 || wr_byte(pos, buf, 39) != 0
+}
 
 impl Dev {
     #[verifier::external_body]
     pub fn seek(&mut self, s: SeekFrom) -> (r: std::result::Result<u64, IoError>)
         requires s is Start || (s is End && s->End_0 == 0),
-        ensures final(self).data@ == old(self).data@,
+        ensures final(self).data@ == old(self).data@, final(self).dirty@ == old(self).dirty@, final(self).snap@ == old(self).snap@,
             match r {
                 Ok(p) => final(self).pos == p && final(self).failed@ == old(self).failed@
                     && (s is Start ==> p == s->Start_0) && (s is End ==> p == old(self).data@.len())
@@ -19,7 +29,7 @@ impl Dev {
 
     #[verifier::external_body]
     pub fn stream_position(&mut self) -> (r: std::result::Result<u64, IoError>)
-        ensures final(self).data@ == old(self).data@,
+        ensures final(self).data@ == old(self).data@, final(self).dirty@ == old(self).dirty@, final(self).snap@ == old(self).snap@,
             match r { Ok(p) => final(self).pos == old(self).pos && p == old(self).pos && final(self).failed@ == old(self).failed@,
                       Err(_) => final(self).failed@ },
     { unimplemented!() }
@@ -29,7 +39,11 @@ impl Dev {
     #[verifier::external_body]
     pub fn write_all(&mut self, buf: &[u8]) -> (r: std::result::Result<(), IoError>)
         requires old(self).pos <= old(self).data@.len(),
-        ensures match r {
+        ensures
+            // C15 history: every write (complete or torn) that carries a non-zero byte for device bytes 32..40 is counted
+            final(self).dirty@ == old(self).dirty@ + (if hdr_touch(old(self).pos as int, buf@) { 1nat } else { 0nat }),
+            final(self).snap@ == (if old(self).dirty@ == 0 && hdr_touch(old(self).pos as int, buf@) { old(self).data@ } else { old(self).snap@ }),
+            match r {
             Ok(_) => final(self).pos == old(self).pos + buf@.len() && final(self).failed@ == old(self).failed@
                 // environment: a device never grows beyond off_t (the write fails with EFBIG instead)
                 && final(self).data@.len() <= 0x7fff_ffff_ffff_ffff
@@ -43,7 +57,7 @@ impl Dev {
     /// any short-read schedule: 1 <= n <= min(len, remaining), 0 exactly at the end (or empty buffer)
     #[verifier::external_body]
     pub fn read(&mut self, buf: &mut [u8]) -> (r: std::result::Result<usize, IoError>)
-        ensures final(self).data@ == old(self).data@, final(buf)@.len() == old(buf)@.len(),
+        ensures final(self).data@ == old(self).data@, final(buf)@.len() == old(buf)@.len(), final(self).dirty@ == old(self).dirty@, final(self).snap@ == old(self).snap@,
             match r {
                 Ok(n) => n <= old(buf)@.len() && old(self).pos + n <= (if old(self).pos <= old(self).data@.len() { old(self).data@.len() as int } else { old(self).pos as int })
                     && final(self).pos == old(self).pos + n && final(self).failed@ == old(self).failed@
@@ -56,7 +70,7 @@ impl Dev {
     /// clobbered any part of the buffer
     #[verifier::external_body]
     pub fn read_exact(&mut self, buf: &mut [u8]) -> (r: std::result::Result<(), IoError>)
-        ensures final(self).data@ == old(self).data@, final(buf)@.len() == old(buf)@.len(),
+        ensures final(self).data@ == old(self).data@, final(buf)@.len() == old(buf)@.len(), final(self).dirty@ == old(self).dirty@, final(self).snap@ == old(self).snap@,
             match r {
                 Ok(_) => old(self).pos + old(buf)@.len() <= old(self).data@.len()
                     && final(self).pos == old(self).pos + old(buf)@.len() && final(self).failed@ == old(self).failed@
@@ -67,7 +81,7 @@ impl Dev {
 
     #[verifier::external_body]
     pub fn flush(&mut self) -> (r: std::result::Result<(), IoError>)
-        ensures final(self).data@ == old(self).data@, final(self).pos == old(self).pos,
+        ensures final(self).data@ == old(self).data@, final(self).pos == old(self).pos, final(self).dirty@ == old(self).dirty@, final(self).snap@ == old(self).snap@,
             match r { Ok(_) => final(self).failed@ == old(self).failed@, Err(_) => final(self).failed@ },
     { unimplemented!() }
 }
